@@ -1010,6 +1010,16 @@ def syntax_variants(base: str, kind: str) -> list[tuple[str, str]]:
     a(("leading-text", "garbage " + base))
     a(("leading-ksr-in-comment", "<!-- <KSR old> -->\n" + base))
     a(("leading-ksrx", "<KSRX/>\n" + base))
+    # --- UNTERMINATED constructs before the root element: whatever scans the header for the root must still come to an end
+    xmldecl = '<?xml version="1.0" encoding="UTF-8"?>\n'
+    root_on = base[base.index("<KSR") :]
+    for name, t in [("comment", "<!-- unterminated comment\n"), ("comment-inner-dashes", "<!-- a -- b\n"), ("comment-almost-closed", "<!-- c --\n"), ("comment-after-a-closed-one", "<!-- closed -->\n<!-- open\n"),
+                    ("pi", "<?pi unterminated\n"), ("doctype", "<!DOCTYPE KSR [\n"), ("cdata", "<![CDATA[ x\n"), ("comment-mentioning-root", "<!-- <KSR old>\n")]:
+        a(("unterminated-" + name + "-at-start", t + root_on))
+        a(("unterminated-" + name + "-after-declaration", xmldecl + t + root_on))
+        a(("unterminated-" + name + "-after-blanks", "  " + t + root_on))
+        a(("unterminated-" + name + "-and-no-root", xmldecl + t))
+        a(("unterminated-" + name + "-after-root", base + t))
     a(("bom", "﻿" + base))
     a(("crlf", base.replace("\n", "\r\n")))
     a(("no-whitespace", re.sub(r">\s+<", "><", base)))
